@@ -206,3 +206,16 @@ CHECKS["C14"] = {
     "outside": ["LIST/LSUB wildcard matching: match() compiles the pattern to a regexp and runs the std regexp engine - not encodable within reach, so 'LIST returns exactly the names RFC 3501 selects' is not decided", "modified UTF-7 names", "connector-side mailbox updates (see C06)"],
     "assumptions": [],
 }
+
+CHECKS["C15"] = {
+    "explanation": "Symbolic execution of Mailbox.Search (sequential branch), buildSearchOp* for flag / keyword / size / UID-set / sequence-set / internal-date keys and NOT / OR / list / juxtaposition, applySearch, buildSearchData and interval resolution on a view with strictly ascending symbolic UIDs, symbolic sizes and dates and chosen flag sets; the result is compared message by message with a reference evaluator of the same symbolically chosen key tree.",
+    "harnesses": [
+        {"name": "search", "pkg": "internal/state", "pkgname": "state", "entry": "VerifC15Search",
+         "files": ["zz_verif_c15.go", "zz_verif_c17.go"] + STATE_FILES, "with": ["verifdb"], "gen_stubs": [TX_STUB],
+         "params": {"quick": grid(n=[1, 2], depth=[0]), "thorough": grid(n=[1, 2, 3], depth=[0]) + grid(n=[1, 2], depth=[1])},
+         "cover": ["search-ok"]},
+    ],
+    "stubs": ["internal/verifdb relational model", "runtime.NumCPU -> 1 / parallelism disabled (sequential branch of parallel.DoContext)"],
+    "outside": ["header/body text keys (FROM, SUBJECT, BODY, TEXT, HEADER) and charset decoding", "SENT* keys", "ON / SINCE (calendar arithmetic through time.Date)", "the parallel branch"],
+    "assumptions": ["view UIDs strictly ascending and non-zero"],
+}
